@@ -201,6 +201,14 @@ fn extract<'tcx>(tcx: TyCtxt<'tcx>, krate: &str) -> J {
         let kind = tcx.def_kind(did);
         match kind {
             DefKind::Fn | DefKind::AssocFn | DefKind::Closure => {}
+            DefKind::Const { .. } | DefKind::AssocConst { .. } => {
+                // initialiser of a named constant (compile-time MIR), e.g. METADATA_SCHEMA
+                if tcx.generics_of(did).is_empty() {
+                    let body = tcx.mir_for_ctfe(did);
+                    bodies.push(body_j(tcx, *ldid, body));
+                }
+                continue;
+            }
             _ => continue,
         }
         if tcx.is_constructor(did) {
@@ -335,6 +343,7 @@ fn body_j<'tcx>(tcx: TyCtxt<'tcx>, ldid: LocalDefId, body: &Body<'tcx>) -> J {
         J::s(match kind {
             DefKind::Closure => "closure",
             DefKind::AssocFn => "method",
+            DefKind::Const { .. } | DefKind::AssocConst { .. } => "const",
             _ => "fn",
         }),
     );
@@ -362,7 +371,7 @@ fn body_j<'tcx>(tcx: TyCtxt<'tcx>, ldid: LocalDefId, body: &Body<'tcx>) -> J {
             o.set("in_trait", J::s(tcx.def_path_str(parent)));
         }
     }
-    if kind != DefKind::Closure {
+    if matches!(kind, DefKind::Fn | DefKind::AssocFn) {
         let sig = tcx.fn_sig(did).instantiate_identity().skip_norm_wip();
         o.set("unsafe_fn", J::Bool(sig.safety().is_unsafe()));
         o.set("vis", J::s(vis_str(tcx, tcx.visibility(did))));
@@ -781,6 +790,18 @@ impl<'a, 'tcx> Cx<'a, 'tcx> {
                 let pt = p.ty(self.body, self.tcx).ty;
                 if let ty::Adt(a, _) = pt.kind() {
                     o.set("adt", J::s(self.tcx.def_path_str(a.did())));
+                    if !a.did().is_local() && a.is_enum() {
+                        // variant names of foreign enums (codec status enums, Option, ...)
+                        let mut vs = Vec::new();
+                        for (vi, v) in a.variants().iter_enumerated() {
+                            let d = a.discriminant_for_variant(self.tcx, vi);
+                            let mut vo = J::obj();
+                            vo.set("name", J::s(v.name.to_string()));
+                            vo.set("discr", J::Int(d.val as i128));
+                            vs.push(vo);
+                        }
+                        o.set("variants", J::Arr(vs));
+                    }
                 }
             }
             Rvalue::Aggregate(kind, ops) => {
